@@ -94,12 +94,34 @@ fn independent_check(p: &Program, info: &ProgramRegistryInfo) -> Result<(), Stri
     Ok(())
 }
 
+
+/// Generated layout family: two functions whose bodies INTERLEAVE (f jumps over g's body to its own
+/// tail), for every combination of f's parameter type, f's declared return type, g's declared return
+/// type and declaration order. Compiler output never interleaves functions, so nothing in the file
+/// corpus exercises what the checker does when "the function a statement belongs to" is not the one
+/// whose entry point precedes it.
+fn interleaved() -> Vec<(String, String)> {
+    let mut out = vec![];
+    for t in ["felt252", "u128"] { for rf in ["felt252", "u128"] { for rg in ["felt252", "u128"] { for g_first in [false, true] {
+        let gconst = if rg == "felt252" { "felt252_const<1>" } else { "u128_const<1>" };
+        let f_decl = format!("f@0([0]: {t}) -> ({rf});");
+        let g_decl = format!("g@1() -> ({rg});");
+        let (d1, d2) = if g_first { (&g_decl, &f_decl) } else { (&f_decl, &g_decl) };
+        out.push((format!("generated interleaved: f({t}) -> {rf} returns its {t} argument from a tail placed after g() -> {rg}{}", if g_first { ", g declared first" } else { "" }),
+            format!("type felt252 = felt252;\ntype u128 = u128;\nlibfunc jump = jump;\nlibfunc gconst = {gconst};\nlibfunc st_f = store_temp<{t}>;\nlibfunc st_g = store_temp<{rg}>;\n\
+jump() {{ FTail() }};\ngconst() -> ([1]);\nst_g([1]) -> ([1]);\nreturn([1]);\nFTail:\nst_f([0]) -> ([0]);\nreturn([0]);\n{d1}\n{d2}\n")));
+    } } } }
+    out
+}
+
 #[test]
 fn __verif_n_c15_independent() {
     std::panic::set_hook(Box::new(|_| {}));
     let (mut cases, mut accepted_n) = (0u64, 0u64);
     let mut fail: Option<(String, String)> = None;
-    'o: for (name, src) in corpus() {
+    let mut inputs = corpus();
+    inputs.extend(interleaved());
+    'o: for (name, src) in inputs {
         let Ok(p) = ProgramParser::new().parse(&src) else { continue };
         let mut all = vec![("unmodified".to_string(), p.clone())];
         all.extend(mutants(&p));
